@@ -48,8 +48,10 @@ contract('parso.python.errors.ErrorFinder.add_issue#part',
 contract('parso.normalizer.Issue.__init__',
          params={'self': 'ref:Issue', 'node': 'ref:NodeOrLeaf', 'code': 'int', 'message': 'str'},
          requires=['node is not None'],
-         ensures=['self.code == code', 'self.message == message'],
-         modifies=['self.code', 'self.message', 'self.start_pos', 'self.end_pos'], props=['C13', 'C20'])
+         # ... and its range is the node's range (the abstract position properties of tree objects: ghost spos / epos, which every
+         # override is verified to refine), so an issue lies where its node lies
+         ensures=['self.code == code', 'self.message == message', 'self.start_pos == spos(node)', 'self.end_pos == epos(node)'],
+         modifies=['self.code', 'self.message', 'self.start_pos', 'self.end_pos'], theories=['tree', 'treepos'], props=['C13', 'C20'])
 contract('parso.normalizer.Issue.__eq__', params={'self': 'ref:Issue', 'other': 'ref:Issue'}, returns='bool',
          requires=['other is not None'],
          ensures=['result == (self.start_pos == other.start_pos and self.code == other.code)'],
